@@ -1,11 +1,16 @@
 #!/bin/sh
-# usage: tools/confirm_seed.sh <worktree> <outdir>  — confirms a seeded change: demo fails with it, passes without, suite still passes
+# usage: tools/confirm_seed.sh <scratch worktree of /repo> <dir holding patch.diff and demo.py>
+# Confirms a seeded change: the demonstration fails with the change and passes without it, and the repository's test suite
+# still passes with it. Uses only `git checkout -- .` and `git apply` inside the given worktree (never `git stash`: the stash is
+# shared by all worktrees of a repository, so concurrent runs would pop each other's changes).
 wt=$1; out=$2
 cd "$wt" || exit 2
-PYTHONPATH=. /venv/bin/python "$out/demo.py" > "$out/confirm_with.log" 2>&1; rc_with=$?
-git stash -q
+git checkout -q -- . && git clean -fdq synapgrad
 PYTHONPATH=. /venv/bin/python "$out/demo.py" > "$out/confirm_without.log" 2>&1; rc_without=$?
-git stash pop -q
+git apply "$out/patch.diff" || { echo "$(basename $out): patch does not apply"; exit 2; }
+PYTHONPATH=. /venv/bin/python "$out/demo.py" > "$out/confirm_with.log" 2>&1; rc_with=$?
 /venv/bin/python -m pytest -q -p no:cacheprovider --timeout=900 > "$out/confirm_suite.log" 2>&1
 tail -1 "$out/confirm_suite.log" > "$out/confirm_suite.txt"
-echo "$(basename $wt): demo_with=$rc_with demo_without=$rc_without suite: $(cat $out/confirm_suite.txt)"
+files=$(git status --short | awk '{print $2}' | tr '\n' ' ')
+git checkout -q -- . && git clean -fdq synapgrad
+echo "$(basename $out): demo_with=$rc_with demo_without=$rc_without suite: $(cat $out/confirm_suite.txt) [files: $files]"
